@@ -30,7 +30,7 @@ var pureCallees = map[string]string{
 	"google.golang.org/protobuf/encoding/protowire.SizeVarint": "pure", "google.golang.org/protobuf/encoding/protowire.SizeBytes": "pure", "google.golang.org/protobuf/encoding/protowire.SizeTag": "pure",
 	"math.Signbit": "pure", "math.Float32bits": "pure", "math.Float64bits": "pure", "math.Float32frombits": "pure", "math.Float64frombits": "pure",
 	"sort.Slice": "fresh-arg0", "sort.SliceStable": "fresh-arg0", "sort.Strings": "fresh-arg0", "sort.Sort": "fresh-arg0", "sort.Ints": "fresh-arg0", "slices.Sort": "fresh-arg0",
-	"encoding/binary.littleEndian.PutUint32": "fresh-arg0", "encoding/binary.littleEndian.PutUint64": "fresh-arg0",
+	"encoding/binary.littleEndian.PutUint32": "fresh-arg0", "encoding/binary.littleEndian.PutUint64": "fresh-arg0", "encoding/binary.PutUvarint": "fresh-arg0", "encoding/binary.PutVarint": "fresh-arg0",
 	"encoding/binary.littleEndian.Uint32": "pure", "encoding/binary.littleEndian.Uint64": "pure",
 	core.RepoModule + "/runtime.Sov": "pure", core.RepoModule + "/runtime.Soz": "pure", core.RepoModule + "/runtime.EncodeVarint": "fresh-arg0", core.RepoModule + "/runtime.Skip": "pure",
 	core.RepoModule + "/runtime.SizeInputToOptions": "pure", core.RepoModule + "/runtime.MarshalInputToOptions": "pure", core.RepoModule + "/runtime.UnmarshalInputToOptions": "pure",
